@@ -30,6 +30,7 @@ SPELLINGS = ["", "", "", "k", "K", "kb", "KB", "KiB", "ki", " k", "m", "int64"]
 LUN = dict(k="lun")
 def CAND(cp): return dict(k="cand", cp=cp)          # cp = -1: no checkpoint
 def RF(off, ln, file): return dict(k="rf", off=off, len=ln, file=file)     # read while chain file `file` (1 = base) cannot be read
+def U(off, ln): return dict(k="u", off=off, len=ln)                      # Server.Unmap (discard) of a unit range
 def CLEAN(cp, fail): return dict(k="clean", cp=cp, fail=bool(fail))        # one pass of the background cleaner
 
 
@@ -538,6 +539,47 @@ def preload_dedup_cases(rng, n, rev=False):
     return out
 
 
+def enum_unmap_cases(K=8, rev=True):
+    """discards (Server.Unmap) on chains with user-created and automatic snapshots: whole blocks, ranges that
+    start / end inside a block, ranges over blocks held by the user snapshot only, by a newer automatic one,
+    by the head; followed by reads, writes into the discarded range, reload / reopen and reads again"""
+    out = []
+    n = 8
+    ranges = [(0, 2 * K), (K, K), (2 * K, 3 * K), (3, K), (3, 2 * K), (K + 5, 2 * K - 2), (2 * K - 1, 2), (0, n * K), (4 * K + 1, K - 2)]
+    chains = {
+        "user": [W(0, 6 * K, 1), SNAP(1, True), W(2 * K, 2 * K, 2)],
+        "auto": [W(0, 6 * K, 1), SNAP(1, False), W(2 * K, 2 * K, 2)],
+        "user-auto": [W(0, 6 * K, 1), SNAP(1, True), W(K, 2 * K, 2), SNAP(2, False), W(2 * K, 2 * K, 3)],
+        "auto-user": [W(0, 6 * K, 1), SNAP(1, False), W(K, 2 * K, 2), SNAP(2, True), W(2 * K, 2 * K, 3)],
+        "user-user": [W(0, 6 * K, 1), SNAP(1, True), W(K, 2 * K, 2), SNAP(2, True)],
+    }
+    for name, ops in sorted(chains.items()):
+        for punch in (False, True):
+            for j in range(0, len(ranges), 3):
+                o2 = list(ops)
+                for off, ln in ranges[j:j + 3]:
+                    o2 += [U(off, ln), R(0, n * K)]
+                o2 += [W(K + 2, K, 9), U(0, K + 4), RELOAD(True), R(0, n * K), REOPEN(False), R(0, n * K)]
+                out.append(mkcase(o2, K=K, nb=n, punch=punch, rev=rev))
+    return out
+
+
+def unmap_cases(rng, n, rev=True):
+    """random histories with discards after user-created and automatic snapshots, with and without later writes"""
+    out = []
+    for _ in range(n):
+        g = Gen(rng, punch=rng.random() < 0.6, rev=rev, bias=dict(snap=0.18, user=0.55, reopen=0.03, reload=0.05, resize=0.0, revert=0.04))
+        ops = []
+        for _ in range(rng.randint(9, 14)):
+            if rng.random() < 0.25 and ops:
+                off, ln = g.io_range()
+                ops.append(U(off, ln))
+            else:
+                ops.append(g.step())
+        out.append(mkcase(ops, K=g.K, nb=g.nb0, punch=g.punch0, rev=rev))
+    return out
+
+
 def resize_cases(rng, n):
     out = []
     for _ in range(n):
@@ -557,6 +599,8 @@ def b(v):
 
 def op_term(o, ob=None):
     k = o["k"]
+    if k == "u":
+        return "Unmap %s %s" % (nat(o["off"]), nat(o["len"]))
     if k == "rf":
         return "ReadFault %s %s %s" % (nat(o["off"]), nat(o["len"]), nat(o["file"]))
     if k == "clean":
@@ -701,7 +745,8 @@ def run_cases(ctx, binpath, cases, tag="blk", workers=16, shard=24):
             bad.append(dict(case=off + f[0], step=f[1], field=f[2], c01=bool(f[3]), c06=bool(f[4]),
                             c11=bool(f[5]), c16=bool(f[6])))
         for i, v in enumerate(vlib.parse_coq_list(vals[1])):
-            cov[off + i] = v
+            lo, hi = vlib.flat(v)
+            cov[off + i] = lo + hi * 4096
     return bad, cov, outs
 
 
@@ -713,7 +758,7 @@ def valid_io(case):
     for o in case["ops"]:
         if o["k"] == "resize" and o["nb"] >= nb:
             nb = o["nb"]
-        if o["k"] in ("w", "r", "rf") and o["off"] + o["len"] > nb * K:
+        if o["k"] in ("w", "r", "rf", "u") and o["off"] + o["len"] > nb * K:
             return False
     return True
 
@@ -813,7 +858,7 @@ def corpus(pid):
 COV_BITS = ["hole_sent", "hole_sent_with_user_snapshot", "unaligned_rmw_from_lower_file", "read_via_probe",
             "snapshot_deleted", "grew", "revert_ok", "reopen_or_reload", "shrink_refused", "protected_refused",
             "candidates_nonempty", "faulted_read_failed_across_files", "faulted_read_succeeded_beside_broken_file",
-            "cleaner_merged_and_removed", "cleaner_kept_snapshot_after_failed_merge"]
+            "cleaner_merged_and_removed", "cleaner_kept_snapshot_after_failed_merge", "unmap_with_protected_user_snapshot"]
 
 
 def cov_summary(cov):
@@ -859,7 +904,7 @@ KNOWN = {
 
 NONTRIVIAL = {
     "C01": lambda f: bool(f & (4 | 8 | 1 | 2048 | 4096)),
-    "C06": lambda f: bool(f & 2),
+    "C06": lambda f: bool(f & (2 | 32768)),
     "C11": lambda f: bool(f & (16 | 512 | 1024 | 8192 | 16384)),
     "C16": lambda f: bool(f & (32 | 256)),
 }
@@ -878,8 +923,10 @@ RULE = {
            "spanning several files, or succeeded beside the broken file; distinct by operation list",
     "C06": "structured histories (cluster written, user/auto snapshots, partial overwrites, aligned multi-block writes across the cluster, "
            "punching on) + random ones + preload's duplicate removal (punching off during the overwrites, on at the preload; directed "
-           "non-adjacent duplicates incl. between two automatic snapshots below a user-created one), NewReadOnly image and revert-on-copy of every snapshot after every step. non-trivial = a hole "
-           "was sent while a user-created snapshot existed (SnapIndx >= 1); distinct by operation list",
+           "non-adjacent duplicates incl. between two automatic snapshots below a user-created one) + discards (Server.Unmap, whole blocks "
+           "and ranges starting / ending inside a block, on chains user / auto / user-auto / auto-user / user-user, followed by reads, "
+           "writes into the discarded range, reload, reopen; random histories with discards), NewReadOnly image and revert-on-copy of every snapshot after every step. non-trivial = a hole "
+           "was sent while a user-created snapshot existed (SnapIndx >= 1), or an unmap was executed with SnapIndx >= 1; distinct by operation list",
     "C11": "random chain shapes (3-9 members, user/removed flags, data spread) with sync.GetDeleteCandidateChain queries, deletions "
            "(PrepareRemoveDisk -> sparse.FoldFile -> RemoveDiffDisk) in random order, protected targets through del/prep/rm; passes of the "
            "production cleaner goroutine (sync.Task.InternalSnapshotCleaner on the real replica.Server; the controller's /v1/checkpoint and "
@@ -913,6 +960,7 @@ def gen_cases(ctx, pid, quick):
         for i in range(40 if quick else 800):
             cases.append(Gen.make(rng, rng.randint(8, 14), rev=True, bias=dict(revert=0.12, user=0.6)))
         cases += enum_preload_dedup_cases(8, rev=True) + preload_dedup_cases(rng, 8 if quick else 300, rev=True)
+        cases += enum_unmap_cases(8) + unmap_cases(rng, 16 if quick else 400)
     elif pid == "C11":
         cases += [S7_CASE]
         cases += chain_shape_cases(rng, 100 if quick else 2500)
@@ -1080,8 +1128,8 @@ def main_for(ctx, replay=None):
                                          granularity={str(k): sum(1 for c in cases if c["K"] == k) for k in sorted(set(c["K"] for c in cases))},
                                          punching_initially_on=sum(1 for c in cases if c["punch"])),
                  coverage_flags=cov_summary(cov), theorems=proof.get("theorems", []), exhaustive=False)
-    irrelevant = {"C01": ("candidates_nonempty", "cleaner_"), "C06": ("candidates_nonempty", "cleaner_", "faulted_"),
-                  "C11": ("faulted_",), "C16": ("candidates_nonempty", "cleaner_", "faulted_")}[pid]
+    irrelevant = {"C01": ("candidates_nonempty", "cleaner_", "unmap_"), "C06": ("candidates_nonempty", "cleaner_", "faulted_"),
+                  "C11": ("faulted_", "unmap_"), "C16": ("candidates_nonempty", "cleaner_", "faulted_", "unmap_")}[pid]
     zero = [k for k, v in extra["coverage_flags"].items() if v == 0 and not k.startswith(irrelevant)]
     if zero:
         ctx.notes.append("coverage predicates with zero hits in this run: " + ", ".join(zero))
